@@ -26,7 +26,7 @@ import (
 )
 
 // vfC18Spec: what each thread does. "r:<file>" = Open+Walk+Read+Attributes (vfDumpFile) of a
-// corpus file; "w" = CreateForWrite + dataset + attributes + Close, then dump of the result.
+// corpus file; "f:<file>" = an Open that is expected to fail; "w" = CreateForWrite + dataset + attributes + Close, then dump of the result.
 type vfC18Spec struct {
 	Threads []string `json:"threads"`
 	Bound   int      `json:"bound"`
@@ -86,6 +86,16 @@ func vfC18Do(what string, idx int, scratch string) (string, error) {
 	if what == "w" {
 		return vfC18Write(filepath.Join(scratch, fmt.Sprintf("c18w%d.h5", idx)))
 	}
+	if strings.HasPrefix(what, "f:") {
+		// an Open that is expected to fail (not an HDF5 file, too short, truncated): the error
+		// paths hold pooled buffers too
+		f, err := Open(strings.TrimPrefix(what, "f:"))
+		if err != nil {
+			return "open-error", nil
+		}
+		defer f.Close()
+		return vfDumpOpen(f).String(), nil
+	}
 	t, err := vfDumpFile(strings.TrimPrefix(what, "r:"))
 	if err != nil {
 		return "", err
@@ -115,6 +125,9 @@ func vfC18Case(spec vfC18Spec, cur **vfC18Inst, seq map[string]string) vsched.Ca
 		var fs []vsched.Finding
 		if o.Status != "done" || len(o.Panics) > 0 {
 			return fs
+		}
+		if vsync.PoolDoublePuts > 0 {
+			fs = append(fs, vsched.Finding{Key: "pooled-buffer-released-twice/handles", Detail: map[string]any{"double_releases": vsync.PoolDoublePuts}})
 		}
 		for i, w := range spec.Threads {
 			if in.errs[i] != "" || vfC18Result(in.dumps[i]) != seq[w] {
@@ -354,7 +367,51 @@ func TestVerif_C18(t *testing.T) {
 	_, _ = vfDumpFile(own)
 	r.Set("handle_file_own_pool_ops", fmt.Sprint(vsync.PoolGets+vsync.PoolPuts-g0))
 	vsync.SetAdversarial(false)
+	// files on which Open fails: empty, shorter than the signature, not HDF5, a real file cut in half
+	bad := map[string][]byte{"empty": {}, "short7": []byte("\x89HDF\r\n\x1a"), "text": []byte(strings.Repeat("not an hdf5 file\n", 40))}
+	if xb, err := os.ReadFile(x.name); err == nil {
+		bad["half"] = xb[:len(xb)/2]
+	}
+	var badNames []string
+	for n := range bad {
+		badNames = append(badNames, n)
+	}
+	sort.Strings(badNames)
+	badPath := func(n string) string { return filepath.Join(scratch, "c18bad-"+n+".h5") }
+	for _, n := range badNames {
+		if err := os.WriteFile(badPath(n), bad[n], 0o644); err != nil {
+			t.Fatal(err)
+		}
+	}
+	// single-threaded: one to three failing opens, then a reader, under the adversarial pool
+	{
+		vsync.SetAdversarial(false)
+		want, errW := vfDumpFile(x.name)
+		for _, n := range badNames {
+			for k := 1; k <= 3; k++ {
+				vsync.SetAdversarial(true)
+				vsync.PoolDoublePuts = 0
+				for i := 0; i < k; i++ {
+					_, _ = vfC18Do("f:"+badPath(n), 0, scratch)
+				}
+				got, errG := vfDumpFile(x.name)
+				dbl := vsync.PoolDoublePuts
+				vsync.SetAdversarial(false)
+				r.Case(fmt.Sprintf("failed-open:%s x%d then read", n, k))
+				if dbl > 0 {
+					r.Fail("pooled-buffer-released-twice/handles:single-thread", map[string]any{"bad_file": n, "failed_opens": k})
+				}
+				if (errW == nil) != (errG == nil) || (errW == nil && want.String() != got.String()) {
+					r.Fail("result-differs-from-sequential/handles:failed-open-then-read", map[string]any{"bad_file": n, "failed_opens": k})
+				}
+			}
+		}
+	}
 	specs := []vfC18Spec{
+		{Threads: []string{"f:" + badPath("empty"), "r:" + x.name}, Bound: bound},
+		{Threads: []string{"f:" + badPath("short7"), "r:" + x.name}, Bound: bound},
+		{Threads: []string{"f:" + badPath("text"), "r:" + x.name}, Bound: bound},
+		{Threads: []string{"f:" + badPath("half"), "r:" + x.name}, Bound: bound},
 		{Threads: []string{"r:" + x.name, "r:" + x.name}, Bound: bound},
 		{Threads: []string{"r:" + x.name, "r:" + y.name}, Bound: bound},
 		{Threads: []string{"r:" + own, "r:" + x.name}, Bound: bound - 1},
